@@ -3,12 +3,28 @@
 -/
 import Bita.Model.Output
 import Bita.Spec.InPlace
+import Bita.Proofs.ExecutorRun
 
 namespace Bita.Proofs
 open Bita Bita.Spec
 
 variable {κ : Type} [DecidableEq κ]
 
+namespace Exec
+
+theorem copiesOf_sub_movable (c : κ → Bytes) (O N : List κ) (ops : List (ROp κ))
+    (hok : ∀ op ∈ ops, OpOk c O N op) : ∀ k ∈ copiesOf ops, k ∈ movableOf c O N := by
+  intro k hk
+  simp only [copiesOf, List.mem_map, List.mem_filter] at hk
+  obtain ⟨op, ⟨hop, _⟩, rfl⟩ := hk
+  have := hok op hop
+  cases op with
+  | copy z sz src dest => exact this.1
+  | store y sz src => exact this.1
+
+end Exec
+
+open Exec in
 /-- Executing any safe plan on a file holding tiling `O`, with the stripped target index:
 it never fails; what is left in the clone index are exactly the target chunks absent from `O`
 (with all their target offsets); every target placement of a chunk that occurs in `O` holds that
@@ -26,6 +42,31 @@ theorem executor_sound (content : κ → Bytes) (O N : List κ)
       (fileOf content O).length ≤ fin.out.file.length ∧
       writesOf fin.out.log =
         ((ops.filter isCopy).map opKey).flatMap (fun k => (dests PO PN k).map (fun d => (d, content k))) := by
-  sorry
+  intro PO PN target
+  obtain ⟨hok, hnd, hall, hord⟩ := safePlan_decode content O N ops hs
+  have hinv : Inv content O N ⟨⟨fileOf content O, target, []⟩, [], 0⟩ [] [] := by
+    refine ⟨Nat.le_refl _, ?_, ?_⟩
+    · intro e _ h
+      rcases h with h | h
+      · exact slice_fileOf_zero content O e h
+      · simp at h
+    · intro y _ _ fy hfy
+      refine Or.inr ⟨rfl, by simp, ?_⟩
+      exact slice_fileOf_zero content O (y, fy) (firstOff_mem _ _ _ hfy)
+  obtain ⟨fin, hfin, h1, h2, h3, h4⟩ := run_inv ops _ [] [] hinv hok hnd (by simp) hord
+  have hsub := copiesOf_sub_movable content O N ops hok
+  refine ⟨fin, hfin, ?_, ?_, h3, ?_⟩
+  · rw [h1]
+    apply target_filter content O N hne
+    · intro k hk; exact ((mem_movableOf content O N k).1 (hsub k hk)).1
+    · intro k hk hd; exact hall k ((mem_movableOf content O N k).2 ⟨hk, hd⟩)
+  · intro e he heO
+    apply h2 e he
+    by_cases hpo : e ∈ PO
+    · exact Or.inl hpo
+    · refine Or.inr (Or.inr (hall e.1 ((mem_movableOf content O N e.1).2 ⟨heO, ?_⟩)))
+      have : e.2 ∈ dests PO PN e.1 := (mem_dests _ _ _ _).2 ⟨he, hpo⟩
+      intro h; rw [h] at this; simp at this
+  · rw [h4]; simp only [writesOf, List.nil_append]; rfl
 
 end Bita.Proofs
